@@ -10,10 +10,30 @@ from . import gens, histories as H, notations, refml as R, schemas as S
 
 
 def sym_cfg(names):
-    return gens.Cfg(ids=(0, 1, 2), nsyms=len(names), sym_names=list(names))
+    return gens.Cfg(ids=(0, 1, 2), nsyms=len(names), sym_names=list(names), holes=True)
+
+
+def constraint_kind_template(draw, cfg):
+    """A metavariable carrying exactly ONE kind of side condition, in a context where that condition is needed for the
+    pattern to be well formed (or at least is stated): every list of the MetaVar encoding gets exercised on its own."""
+    i = draw(st.sampled_from(cfg.ids)); k = draw(st.sampled_from(cfg.ids)); sym = R.Y(cfg.sym_names[0]) if cfg.sym_names else R.Y(0)
+    t = draw(st.sampled_from([
+        R.MU(k, R.NOT(R.MV(i, (), (), (), (k,)))),                      # negative only, at a negative position under mu
+        R.MU(k, R.I(R.MV(i, (), (), (), (k,)), R.S(k))),
+        R.MU(k, R.MV(i, (), (), (k,), ())),                             # positive only
+        R.MU(k, R.A(sym, R.MV(i, (), (), (k,), ()))),
+        R.MU(k, R.I(R.MV(i, (), (k,), (), ()), R.S(k))),                # s_fresh only
+        R.I(R.MV(i, (k,), (), (), ()), R.EX(k, R.MV(i, (k,), (), (), ()))),   # e_fresh only
+        R.MV(i, (), (), (), (), (k,)),                                  # application-context holes only
+        R.I(R.MV(i, (), (), (), (), (k,)), R.E(k)),
+        R.MV(i, (), (), (k,), (k,)),                                    # positive and negative
+    ]))
+    return t if R.well_formed(t) else R.MV(i)
 
 
 def draw_axiom(draw, cfg, depth=2):
+    if draw(st.integers(0, 7)) == 0:
+        return constraint_kind_template(draw, cfg)
     return S.draw_arg_pattern(draw, cfg, draw(st.integers(0, depth)))
 
 
@@ -133,6 +153,12 @@ def module_descs(draw, with_apps=True, max_depth=3, sym_pool=('a', 'b', 'c', 'A'
             elif kind == 'quant':
                 _, _, defs = H.pool()
                 pat = draw_axiom(draw, cfg, 2)
+                if draw(st.integers(0, 3)) == 0:
+                    # binders around the substituted variable x0 whose bound id coincides with the id of the plug x1 in the
+                    # other namespace (mu X1), or rebinds x0 / binds x1 (capture: excluded below)
+                    sym0 = R.Y(cfg.sym_names[0]) if cfg.sym_names else R.Y(0)
+                    pat = draw(st.sampled_from([R.MU(1, R.A(R.S(1), R.E(0))), R.MU(0, R.A(R.S(0), R.E(0))), R.EX(2, R.A(R.E(2), R.E(0))),
+                                                R.I(R.MU(1, R.A(sym0, R.E(0))), R.E(0)), R.EX(0, R.E(0)), R.MU(1, R.I(sym0, R.A(R.S(1), R.E(0))))]))
                 try:
                     inst = R.apply_esubst(gens.expand_sugared(pat, defs), 0, R.E(1), 'check')   # capture-free instance only
                     # known finding (KNOWN_FINDINGS.txt, key checker-rejects:redundant-subst): substituting into a pending
